@@ -64,19 +64,25 @@ type Net struct {
 	hooks []Hook
 	// NoLog disables the shared recorder (race builds: a shared log would add
 	// happens-before edges between sessions).
-	NoLog  bool
-	Log    []*NetEvent
-	Faults map[string]int
-	Panics []PanicRecord
+	NoLog bool
+	// MaxMsgs bounds the number of requests of a run (0 = 4000). Beyond it the
+	// network stops delivering, so that a run that would otherwise exchange up
+	// to the library's 1e6 service-info rounds ends quickly.
+	MaxMsgs   int
+	reqs      int
+	Exhausted bool
+	Log       []*NetEvent
+	Faults    map[string]int
+	Panics    []PanicRecord
 }
 
 func NewNet(k *Kernel) *Net {
 	return &Net{K: k, nodes: map[string]*Node{}, Faults: map[string]int{}}
 }
 
-func (n *Net) AddNode(node *Node)  { n.nodes[node.Name] = node }
-func (n *Net) AddHook(h Hook)      { n.hooks = append(n.hooks, h) }
-func (n *Net) ClearHooks()         { n.hooks = nil }
+func (n *Net) AddNode(node *Node)     { n.nodes[node.Name] = node }
+func (n *Net) AddHook(h Hook)         { n.hooks = append(n.hooks, h) }
+func (n *Net) ClearHooks()            { n.hooks = nil }
 func (n *Net) Node(name string) *Node { return n.nodes[name] }
 
 func (n *Net) record(ev *NetEvent) {
@@ -143,6 +149,16 @@ func (l *Link) RoundTrip(req *http.Request) (*http.Response, error) {
 // response back through the hooks. It is also the entry point for
 // adversary-originated (injected) requests.
 func (n *Net) Deliver(ev *NetEvent) (*http.Response, error) {
+	n.mu.Lock()
+	n.reqs++
+	over := n.reqs > max(n.MaxMsgs, 4000) || (n.MaxMsgs > 0 && n.reqs > n.MaxMsgs)
+	if over {
+		n.Exhausted = true
+	}
+	n.mu.Unlock()
+	if over {
+		return nil, fmt.Errorf("simnet: message budget of the run exhausted")
+	}
 	n.K.Yield("net.req")
 	for _, h := range n.hooks {
 		h(ev)
